@@ -177,7 +177,7 @@ class CHECK(vlib.Check):
     def gen_cases(self, rng, tier):
         scale = 1 if tier == "quick" else 12
         out = []
-        for mode, cnt in (("pure", 700), ("pulseops", 900), ("getops", 500)):
+        for mode, cnt in (("pure", 700), ("pulseops", 900), ("getops", 400), ("reentrant", 300)):
             for _ in range(cnt * scale):
                 out.append((mode, gen_case(rng, mode, rng.choice([4, 8, 12, 20, 30, 45]))))
         out += [("directed", c) for c in directed()]
